@@ -264,4 +264,102 @@ theorem hearByebye_ok {e : Exp} (h : ExpOk e) (c : Cfg) {m : Msg} (husn : m.usn 
   have := unsee_known (seeAdv Parse.ipVersion (Parse.skipHdr genCfg) {} msg).1 msg2 hn2 hu2 hud2 hty2 hd hdl
   simpa [step, hk, hk2, toS_toList] using this
 
+/-! ### a description URL the listener refuses -/
+
+theorem look_location_resp (c : Cfg) (m : Msg) :
+    ∃ k, get? (C16.SMap.writeAll Parse.lower [] (decoded (responseHeaders c m))) "location" = some (k, toS c.location) := by
+  have h1 : hdr? (responseHeaders c m) "usn".toList = some m.usn := rfl
+  have h2 : hdr? (responseHeaders c m) "location".toList = some c.location := rfl
+  unfold decoded
+  simp only [h1, h2, Option.getD_some]
+  by_cases hT : hasText c.location = true <;> simp only [hT, if_true, Bool.false_eq_true, if_false] <;>
+    split <;> (try split) <;>
+    simp only [lookW, responseHeaders, List.map_cons, List.map_nil,
+      List.map_append, List.reverse_append, List.reverse_cons, List.reverse_nil, List.nil_append, List.cons_append,
+      List.append_nil, k1, k2, k3, k4, k5, k6, k7, k8, k9, e1, e2, e3, e4, e5, e6, e7, e8] <;>
+    simp [get?]
+theorem look_location_notif (c : Cfg) (nts : Str) (m : Msg) :
+    ∃ k, get? (C16.SMap.writeAll Parse.lower [] (decoded (notifyHeaders c nts m))) "location" = some (k, toS c.location) := by
+  have h1 : hdr? (notifyHeaders c nts m) "usn".toList = some m.usn := rfl
+  have h2 : hdr? (notifyHeaders c nts m) "location".toList = some c.location := rfl
+  unfold decoded
+  simp only [h1, h2, Option.getD_some]
+  by_cases hT : hasText c.location = true <;> simp only [hT, if_true, Bool.false_eq_true, if_false] <;>
+    split <;> (try split) <;>
+    simp only [lookW, notifyHeaders, List.map_cons, List.map_nil,
+      List.map_append, List.reverse_append, List.reverse_cons, List.reverse_nil, List.nil_append, List.cons_append,
+      List.append_nil, k1, k3, k5, k7, k8, k9, k10, k11, k12, e1, e2, e3, e4, e5, e6, e7, e8] <;>
+    simp [get?]
+
+theorem mkMsg_locOk_false (kind : Kind) (h : Hdrs String) (src : String) {k : String} {loc : Str}
+    (hl : get? h "location" = some (k, toS loc)) (hv : validLocation loc = false) :
+    (Parse.mkMsg genCfg kind (C16.SMap.write Parse.lower h "_source" src)).locOk = false := by
+  have hset : get? (C16.SMap.write Parse.lower h "_source" src) "location" = get? h "location" := by
+    unfold C16.SMap.write
+    rw [e9, get?_set_ne _ _ _ _ (by decide)]
+  simp only [Parse.mkMsg, hset, hl, Parse.truthy]
+  split
+  · rename_i v heq
+    split at heq
+    · simp at heq
+    · simp only [Option.some.injEq] at heq; subst heq; exact hv
+  · rfl
+
+/-- the listener model on a datagram whose LOCATION it refuses: nothing is reported, nothing is stored -/
+theorem listen_refused (P : List (String × String)) {loc : Str}
+    (hlook : ∃ k, get? (C16.SMap.writeAll Parse.lower [] P) "location" = some (k, toS loc))
+    (hv : validLocation loc = false) (sockA : Bool) :
+    step Parse.ipVersion (Parse.skipHdr genCfg) {} (Parse.parseEv genCfg sockA P) = ({}, none) := by
+  obtain ⟨k, hl⟩ := hlook
+  have hS := fun src kind => mkMsg_locOk_false kind (C16.SMap.writeAll Parse.lower [] P) src hl hv
+  have unsee0 : ∀ msg : C03.Msg String, unsee ({} : Tracker String) msg = ({}, none) := by
+    intro msg
+    unfold unsee
+    split
+    · rfl
+    · split
+      · simp [PyDict.get?]
+      · rfl
+  unfold Parse.parseEv
+  simp only
+  split
+  · rfl
+  · cases sockA with
+    | false =>
+      simp only [Bool.false_eq_true, if_false]
+      split
+      · rfl
+      · have := hS "search" .search
+        generalize hm : Parse.mkMsg genCfg .search _ = msg at this ⊢
+        have hk : msg.kind = .search := by rw [← hm]; rfl
+        simp [step, hk, seeSearch, Msg.validSearch, this]
+    | true =>
+      simp only [if_true]
+      split
+      · rfl
+      · split
+        · have := hS "advertisement" .alive
+          generalize hm : Parse.mkMsg genCfg .alive _ = msg at this ⊢
+          have hk : msg.kind = .alive := by rw [← hm]; rfl
+          simp [step, hk, seeAdv, Msg.validAdv, this]
+        · split
+          · generalize hm : Parse.mkMsg genCfg .byebye _ = msg
+            have hk : msg.kind = .byebye := by rw [← hm]; rfl
+            simp [step, hk, unsee0]
+          · split
+            · have := hS "advertisement" .update
+              generalize hm : Parse.mkMsg genCfg .update _ = msg at this ⊢
+              have hk : msg.kind = .update := by rw [← hm]; rfl
+              simp [step, hk, seeAdv, Msg.validAdv, this]
+            · rfl
+theorem hear_refused (c : Cfg) (m : Msg) (hv : validLocation c.location = false) :
+    hearResponse c m = Heard.no ∧ hearAlive c m = Heard.no ∧ hearByebye c m = Heard.no := by
+  have r1 := listen_refused _ (look_location_resp c m) hv false
+  have r2 := listen_refused _ (look_location_notif c ntsAlive m) hv true
+  have r3 := listen_refused _ (look_location_notif c ntsByebye m) hv true
+  refine ⟨?_, ?_, ?_⟩
+  · unfold hearResponse listen; rw [r1]; rfl
+  · unfold hearAlive listen; rw [r2]; rfl
+  · unfold hearByebye listen; rw [r2]; simp only; rw [r3]; rfl
+
 end Upnp.C13
